@@ -98,6 +98,27 @@ func (c *context) AssignActions() bool {
 		}
 	}
 
+	// The elements of a 'x*!' term are filtered by their Discard() method: the
+	// generated code cannot compile without it.
+	for _, prod := range c.ParserGrammar.Prods {
+		if RuleGenerated(prod.Rule) != notGenerated {
+			continue
+		}
+		for _, term := range prod.Terms {
+			rule, ok := term.(*lr1.Rule)
+			if !ok || RuleGenerated(rule) != generatedZeroOrMoreF {
+				continue
+			}
+			oneOrMore := rule.Prods[0].Terms[0].(*lr1.Rule)
+			elemType := c.getTermGoType(oneOrMore.Prods[1].Terms[0])
+			if elemType != nil && !hasDiscardMethod(elemType) {
+				c.Errs.Errorf(
+					prod.Position, "%v: %v has no method Discard() bool",
+					rule.Name, elemType)
+			}
+		}
+	}
+
 	if c.Errs.HasError() {
 		return false
 	}
@@ -240,6 +261,22 @@ func (c *context) getReduceTypeForGeneratedRule(
 	default:
 		panic("unreachable")
 	}
+}
+
+// hasDiscardMethod reports whether e.Discard() is a boolean expression for an
+// addressable e of type t.
+func hasDiscardMethod(t gotypes.Type) bool {
+	obj, _, _ := gotypes.LookupFieldOrMethod(t, true, nil, "Discard")
+	fn, ok := obj.(*gotypes.Func)
+	if !ok {
+		return false
+	}
+	sig := fn.Type().(*gotypes.Signature)
+	if sig.Params().Len() != 0 || sig.Results().Len() != 1 {
+		return false
+	}
+	res, ok := sig.Results().At(0).Type().Underlying().(*gotypes.Basic)
+	return ok && res.Info()&gotypes.IsBoolean != 0
 }
 
 func (c *context) matchMethod(prod *lr1.Prod, methods []*actionMethod) []*actionMethod {
